@@ -61,7 +61,7 @@ def iteration_zero(sl):
 def time_control(sl):
     w = fresh_real("warmup", 0)
     p = fresh_real("period", 0)
-    clock = Clock()
+    clock = Clock(wall_steps=True)
     with shadowed(driver, (), extra={"time": clock.time_ns()}):
         lc = driver.TimePeriodBased(w, p)
         lc.start()
@@ -317,7 +317,7 @@ def generator_time(sl):
     k = sl["steps"]
     w = fresh_real("warmup", 0)
     p = fresh_real("period", 0)
-    clock = Clock()
+    clock = Clock(wall_steps=True)
     task = track.Task("t", track.Operation("op", "bulk"), warmup_time_period=w, time_period=p)
     with shadowed(driver, (), extra={"time": clock.time_ns()}):
         lc = driver.TimePeriodBased(w, p)
@@ -352,7 +352,7 @@ def executor_time_based(sl):
     idx = concrete(fresh_int("global_index", 0, total - 1)) if sl["ramp"] else 0
     if ramp is not None:
         core.assume(ramp <= w)
-    clock = Clock()
+    clock = Clock(wall_steps=True)
     es = {"default": Client()}
     calls = []
 
@@ -526,6 +526,12 @@ def target_throughput_strings(sl):
         observe("a leniently accepted spelling still yields the number and unit as written", tt.value == float(num) and tt.unit == unit)
 
 
+def _c04_real_scheduler(sl):
+    from harness import c04
+
+    return c04.real_scheduler(sl)
+
+
 READS = [driver.schedule_for, driver.requires_time_period_schedule, driver.ScheduleHandle.__call__, driver.ScheduleHandle.ramp_up_wait_time.fget,
          driver.IterationBased, driver.TimePeriodBased, scheduler.scheduler_for, scheduler.run_unthrottled, scheduler.UnitAwareScheduler.after_request,
          scheduler.DeterministicScheduler, scheduler.PoissonScheduler, scheduler.Unthrottled, track.Task.target_throughput.fget,
@@ -555,6 +561,10 @@ HARNESSES = [
             assumptions=["regex matching and float() run concretely on a finite family of spellings (no symbolic strings)"],
             bounds={"numbers": NUMBERS, "separators": [repr(x) for x in SEPARATORS], "units": UNITS},
             doc="string form of target-throughput: number and unit read as written"),
+    Harness("pacing_through_the_executor", _c04_real_scheduler, "symbolic", lambda tier: [{"requests": r, "target": t} for r in ((2, 3) if tier == "quick" else (2, 3, 4)) for t in (1, 14)],
+            reads=READS + [driver.ScheduleHandle.after_request, driver.ScheduleHandle.before_request], stubs=CLK + ["asyncio.sleep", "runner"], real_valued=True,
+            bounds={"requests": "2..3 (4)", "target throughput": "'1 docs/s' / '14 docs/s'", "clients": "1..2", "outcomes": "7 docs / unsuccessful 3 docs / ApiError per request"},
+            doc="feedback path runner -> executor -> ScheduleHandle -> UnitAwareScheduler: slots weight*C/T apart also after unsuccessful requests (harness shared with C04)"),
     Harness("generator_iterations", generator_iterations, "symbolic", lambda tier: [{"bound": 4 if tier == "quick" else 6}], reads=READS,
             bounds={"warmup + iterations": "<=4 quick / <=6 thorough"}, real_valued=True, doc="real schedule generator with IterationBased"),
     Harness("generator_param_source_ends", generator_param_source_ends, "symbolic", lambda tier: [{"limit": k} for k in (0, 1, 3)], reads=READS,
